@@ -41,6 +41,8 @@ def _teardown_workers(n):
 
 def seedrun(patch):
     cmd = [os.path.join(ROOT, "tools", "seedrun.py"), patch]
+    if os.environ.get("LACE_MX_PROPS"):          # restrict the checks run (fast re-runs after one rule file changed)
+        cmd += ["--props", os.environ["LACE_MX_PROPS"]]
     env = dict(os.environ)
     w = None
     if _WORKERS is not None:
@@ -133,7 +135,18 @@ def _main(only):
             return (os.path.basename(p), sorted(fired))
         brow = _map(oneb, sorted(glob.glob(os.path.join(ROOT, "selftest", "benign", "*.diff"))))
         bad += sum(1 for r in brow if r[1])
-    if not only:
+    if only and "--rewrite" in sys.argv:
+        # partial run: rebuild every row from the stored meta.json files (the re-run ones were just updated); benign rows are kept as they are
+        rows = []
+        for d in sorted(glob.glob(os.path.join(ROOT, "seeded", "C*-*")), key=lambda d: (os.path.basename(d).split("-")[0], int(os.path.basename(d).split("-")[1]))):
+            m = json.load(open(os.path.join(d, "meta.json")))
+            fired = m.get("checks_fired") or {}
+            rules = sorted({l.split("  ")[1] for ls in fired.values() for l in ls if len(l.split("  ")) > 2})
+            rows.append((os.path.basename(d), m["property"], sorted(fired), rules, m["summary"][:110].replace("|", "/")))
+        for p in sorted(glob.glob(os.path.join(ROOT, "selftest", "benign", "*.diff"))):
+            jp = p[:-5] + ".json"
+            brow.append((os.path.basename(p), sorted((json.load(open(jp)).get("checks_fired") or {})) if os.path.exists(jp) else []))
+    if not only or "--rewrite" in sys.argv:
         with open(os.path.join(ROOT, "seeded", "MATRIX.md"), "w") as f:
             f.write("# Seeded changes vs. checks (regenerated by tools/seedmatrix.py; quick tier, dev profile)\n\n")
             f.write("Every change compiles, keeps the 72 repository tests green, and has a demonstration (demo.* in its directory).\n\n")
